@@ -139,7 +139,7 @@ def program_symbols(ctx, drv, stats):
             for l in labels:
                 if l in seen:
                     stats["oracle_failures"] += 1
-                    ctx.finding("oracle:duplicate-symbol", dict(kind="oracle", program=p, variant=vn, symbol=l),
+                    ctx.finding("oracle:duplicate-symbol:" + os.path.basename(p)[:-5], dict(kind="oracle", program=p, variant=vn, symbol=l),
                                 "%s (%s): the symbol %s is defined twice — two functions got the same linker symbol" % (os.path.basename(p), vn, l[:120]))
                 seen[l] = 1
             reqs = []
